@@ -237,10 +237,13 @@ func runC19(c *Ctx) *Replay {
 		}
 	}
 	sc := Scenario{Kind: "cli", Prog: p.ID, Files: map[string]string{}, Extra: map[string]string{}}
-	class := []string{"valid", "valid", "syntax-error", "validation-error", "import", "import-missing", "import-paths", "symlinks"}[r.Intn(8)]
+	class := []string{"valid", "valid", "syntax-error", "validation-error", "import", "import-missing", "import-paths", "symlinks", "degenerate"}[r.Intn(9)]
 	text := valid
 	pre := "" // directory of the files the tool is pointed at
 	switch class {
+	case "degenerate":
+		// files with nothing (or next to nothing) in them, a byte-order mark, NUL bytes
+		text = []string{"", "\n", "// only a remark\n", "/* only a block remark */", "   \n\t\n", "\xef\xbb\xbf" + valid, "\r\n", "const int32 kOnly = 1;", valid + "\x00", "//"}[r.Intn(10)]
 	case "syntax-error":
 		text = valid + "\nstruct Broken { int32 ; }\n"
 	case "validation-error":
